@@ -90,13 +90,14 @@ Definition get_one_subject (st : stat) (s : name) : res (list (name * list (name
   end.
 
 (* ---------------------------------------------------------------- ValueSummary *)
-Definition qsum (l : list Q) : Q := fold_right Qplus 0%Q l.
+(* every intermediate result is reduced (Qred q == q): keeps the extracted engine's numbers small *)
+Definition qsum (l : list Q) : Q := fold_right (fun x acc => Qred (x + acc)) 0%Q l.
 Definition qlen (l : list Q) : Q := inject_Z (Z.of_nat (length l)).
-Definition mean (l : list Q) : Q := (qsum l / qlen l)%Q.
-Definition sqdev (a x : Q) : Q := ((x - a) * (x - a))%Q.
+Definition mean (l : list Q) : Q := Qred (qsum l / qlen l).
+Definition sqdev (a x : Q) : Q := Qred ((x - a) * (x - a)).
 (* sum of squared deviations from the mean over (n - ddof); ddof = 0 is numpy's default *)
 Definition var_ddof (ddof : Z) (l : list Q) : Q :=
-  (qsum (map (sqdev (mean l)) l) / inject_Z (Z.of_nat (length l) - ddof))%Q.
+  Qred (qsum (map (sqdev (mean l)) l) / inject_Z (Z.of_nat (length l) - ddof)).
 Definition variance (l : list Q) : Q := var_ddof 0 l.
 (* builtin min / max: first extremal element; the caller guards non-emptiness *)
 Fixpoint qmin_l (cur : Q) (l : list Q) : Q :=
